@@ -51,6 +51,18 @@ def oracle_weights(T, degree, periodic, ncells, pts, a, b):
     return [M[i][n] for i in range(n)]
 
 
+def variant_constants(mode):
+    """constants of the finder: '+cold' is a cold plasma whose Maxwellian underflows to exactly 0.0 in the tails of the
+    velocity window [-3, 3] (the exact run leaves exp uninterpreted; the float replay sees the zeros); '+eps0' has the
+    initial perturbation amplitude 0 (an equilibrium run's constants) while the distribution handed over is arbitrary"""
+    c = dist.default_constants()
+    if '+cold' in mode:
+        c.CTi = 1 / 400
+    if '+eps0' in mode:
+        c.eps = 0.0
+    return c
+
+
 def work(item):
     shape, nprocs, vspace, mode, canary = item          # shape = (nr, ntheta, nz); vspace = (degree, ncells, path)
     res = H.worker_result()
@@ -78,7 +90,7 @@ def work(item):
                numenv.karr([Fr(i, nth) for i in range(nth)]),
                numenv.karr([Fr(i, 2) for i in range(nz)]),
                np.array(vpts, dtype=object)]
-        consts = dist.default_constants()
+        consts = variant_constants(mode)
         F = dist.symbolic_field('f', (nr, nth, nz, nv))
         st.update(F=F, eta=eta, vpts=vpts, consts=consts)
 
@@ -88,7 +100,7 @@ def work(item):
             g = m['grid'].Grid(eta, [None, None, None, vbasis], h4, 'v_parallel', comm=comm, dtype=object)
             rho = m['grid'].Grid(eta[:3], [None] * 3, h3, 'v_parallel_2d', comm=comm, dtype=object)
             dist.fill_grid(g, F)
-            if mode.endswith('+hist'):
+            if '+hist' in mode:
                 # another finder built earlier in the same process: same sizes and constants, different v grid
                 vb2 = dist.make_basis(vdeg, False, [b + Fr(5, 2) for b in vbreaks], uniform=(vpath == 'cu'))
                 eta2 = list(eta[:3]) + [np.array(list(vb2.greville), dtype=object)]
@@ -157,6 +169,15 @@ def work(item):
                                           dict(kind='density', item=str(item[:4]), concrete=prob, canary=bool(canary))))
             else:
                 res['inconclusive'].append('unknown density query %r' % (item[:4],))
+    if '+cold' in mode and not canary:
+        # the exact run knows exp > 0; in doubles the cold Maxwellian is exactly 0.0 in the tails: decided by the float run
+        res['obligations'] += 1
+        prob = float_replay(m, ps, item, None)
+        if prob:
+            res['violations'].append(('density:%s:float' % mode, '%s (equilibrium underflows to 0.0 in the velocity tails)' % prob,
+                                      dict(kind='density', item=str(item[:4]), concrete=prob, canary=False)))
+        else:
+            res['discharged'] += 1
     numenv.disable()
     if canary:
         undo_canary(None)
@@ -182,7 +203,7 @@ def float_replay(m, ps, item, canary):
         vb = m['spl'].BSplines(kn, vdeg, False, vpath == 'cu')
         vpts = np.array(vb.greville, dtype=float)
         eta = [np.array([0.1 + i / 3 for i in range(nr)]), np.array([i / nth for i in range(nth)]), np.array([i / 2 for i in range(nz)]), vpts]
-        consts = dist.default_constants()
+        consts = variant_constants(mode)
         rng = np.random.RandomState(3)
         Fd = rng.rand(nr, nth, nz, len(vpts)) * 2 - 1
         T = oracle_knots(vbreaks, vdeg, False, vpath)
@@ -210,7 +231,7 @@ def float_replay(m, ps, item, canary):
             else:
                 rho = m['grid'].Grid(eta[:3], [None] * 3, h3, 'v_parallel_2d', comm=comm)
             dist.fill_grid(g, Fd)
-            if mode.endswith('+hist'):
+            if '+hist' in mode:
                 kn2 = m['spl'].make_knots(np.array([float(x) + 2.5 for x in vbreaks]), vdeg, False)
                 vb2 = m['spl'].BSplines(kn2, vdeg, False, vpath == 'cu')
                 ps.DensityFinder(6, vb2, list(eta[:3]) + [np.array(vb2.greville, dtype=float)], consts)
@@ -271,6 +292,9 @@ def main():
     # local radial extent equal to the number of velocity points on a rank that is not the first along r
     items.append(((10, 2, 2), (2, 1), (3, 2, 'nu'), 'perturbed', None))
     # history: a finder for another v domain (same sizes, same constants) exists already in the process
+    items.append(((3, 2, 3), (2, 1), (3, 3, 'cu'), 'perturbed+cold', None))
+    items.append(((3, 2, 3), (1, 2), (3, 3, 'cu'), 'perturbed+eps0', None))
+    items.append(((3, 2, 3), (1, 1), (3, 2, 'nu'), 'total+cold+eps0', None))
     items.append(((3, 2, 3), (1, 1), (3, 3, 'cu'), 'perturbed+hist', None))
     items.append(((3, 2, 3), (2, 1), (3, 2, 'nu'), 'perturbed+hist', None))
     for cn in CANARIES:
